@@ -35,17 +35,22 @@ def main():
             cdir = os.path.join(zoo.VERIF, "corpus")
             os.makedirs(cdir, exist_ok=True)
             idx = {"images": []}
+            if only and os.path.exists(os.path.join(cdir, "index.json")):
+                idx = json.load(open(os.path.join(cdir, "index.json")))
+                idx["images"] = [e for e in idx["images"] if e["name"] not in only]
             for s in specs:
                 p = os.path.join(w.dir, s["name"] + ".img")
                 with open(os.path.join(cdir, s["name"] + ".img.xz"), "wb") as out:
                     subprocess.run(["xz", "-9", "-T1", "-c", p], stdout=out, check=True)
                 e = {"name": s["name"], "sha256": run.sha256_file(p), "size": os.path.getsize(p),
-                     "args": s["args"], "tree": s["tree"], "extras": s.get("extras", [])}
+                     "args": s["args"], "tree": s["tree"], "extras": s.get("extras", []), "big": bool(s.get("big"))}
                 if os.path.exists(p + ".jnl"):
                     with open(os.path.join(cdir, s["name"] + ".jnl.xz"), "wb") as out:
                         subprocess.run(["xz", "-9", "-c", p + ".jnl"], stdout=out, check=True)
                     e["journal_dev"] = True
                 idx["images"].append(e)
+            order = [x["name"] for x in zoo.SPECS]
+            idx["images"].sort(key=lambda e: order.index(e["name"]))
             with open(os.path.join(cdir, "index.json"), "w") as f:
                 json.dump(idx, f, indent=1)
             subprocess.run(["du", "-sh", cdir])
